@@ -35,7 +35,8 @@ Definition slot_eqb (a b : slot) : bool :=
   end.
 
 (* what was pushed / noticed at a `recv.event` site *)
-Inductive rkind := RHeaders | RInfo | RTrailers | RData | RPromised | RPollData | RAfterReset.
+Inductive rkind := RHeaders | RInfo | RTrailers | RData | RPromised | RPollData | RAfterReset
+  | RDataUnobserved.   (* Recv::recv_data on a stream whose RecvStream is gone: nothing is queued for a reader *)
 
 (* entries through which a handle (or the connection's owner) leaves work for the connection task *)
 Inductive work :=
@@ -74,6 +75,7 @@ Definition notify_of (s : site) : list slot :=
   | StRecvReset k | StHandleError k | StRecvEof k => [SlSend k; SlOpen k; SlRecv k; SlPush k]
   | StRecvEvent k RHeaders ended | StRecvEvent k RData ended => SlRecv k :: (if ended then [SlPush k] else [])
   | StRecvEvent k RTrailers _ | StRecvEvent k RPromised _ => [SlRecv k; SlPush k]
+  | StRecvEvent k RDataUnobserved ended => if ended then [SlPush k] else []
   | StRecvEvent k _ _ => [SlRecv k]
   | StPushQueued k => [SlPush k]
   | StWork _ => [SlConn]
@@ -94,6 +96,7 @@ Definition interested (s : site) : list slot :=
   | StRecvEvent k RHeaders ended | StRecvEvent k RData ended => SlRecv k :: (if ended then [SlPush k] else [])
   | StRecvEvent k RTrailers _ => [SlRecv k; SlPush k]            (* trailers end the receive half *)
   | StRecvEvent k RInfo _ => [SlRecv k]
+  | StRecvEvent k RDataUnobserved ended => if ended then [SlPush k] else []   (* no reader is left; the receive half may have ended *)
   | StRecvEvent _ _ _ => []                                      (* nothing new for anyone *)
   | StPushQueued k => [SlPush k]
   | StWork _ => [SlConn]
